@@ -83,8 +83,16 @@ func (c *Ctx) mck7() {
 					if over < 0 {
 						continue
 					}
-					if p.Index(over, isTBFail) >= 0 {
+					last := len(p.Events) - 1
+					returnsErr := true
+					if p.End == pathx.KReturn && len(p.Events[last].Results) == 3 {
+						// a ReadSlices double has nothing to hand out: the invocation fails
+						returnsErr = retErr(p, last) == triNonNil
+					}
+					if p.Index(over, isTBFail) >= 0 && returnsErr {
 						a.pass()
+					} else if !returnsErr {
+						a.fail(p, last, "an excess ReadSlices invocation returns no error: the caller goes on with an empty message as if it had been received")
 					} else {
 						a.fail(p, len(p.Events)-1, "an invocation for which no expectation is left returns without a test failure: too many calls go unnoticed")
 					}
@@ -185,29 +193,42 @@ func (c *Ctx) mck7() {
 		a.done(2, "(nil, errFix) for a non-nil errFix, (exchange, nil) otherwise")
 	}
 	v := c.acc("MCK-7", ctor, "script-validation-decided-on-positions(i,n)")
-	// the range index and the script length
+	// the loop's induction variable and the script length. A range loop counts
+	// phi(-1; +1) and uses phi+1 as the index; an index loop counts phi(0; +1).
+	var ind *ssa.Phi
+	var indInit int64
+	for _, b := range ctor.Blocks {
+		for _, ins := range b.Instrs {
+			ph, ok := ins.(*ssa.Phi)
+			if !ok || ph.Type().String() != "int" {
+				continue
+			}
+			init, hasInit, step := int64(0), false, false
+			for _, e := range ph.Edges {
+				if k, isK := intConst(e); isK {
+					if _, isC := e.(*ssa.Const); isC && (k == 0 || k == -1) {
+						init, hasInit = k, true
+					}
+				}
+				if bo, ok := e.(*ssa.BinOp); ok && bo.Op == token.ADD && bo.X == ssa.Value(ph) && isK(bo.Y, 1) {
+					step = true
+				}
+			}
+			if hasInit && step && ind == nil {
+				ind, indInit = ph, init
+			}
+		}
+	}
+	if ind == nil {
+		v.failAt(c.P.Pos(ctor.Pos()), "the loop over the script was not recognised (an int that counts up by one from 0 or -1)")
+		v.done(1, "")
+		return
+	}
 	classifyIdx := func(val ssa.Value) adjLeaf {
 		switch x := stripConv(val).(type) {
 		case *ssa.Phi:
-			if x.Type().String() == "int" && x.Parent() == ctor {
-				for _, e := range x.Edges {
-					if k, ok := e.(*ssa.Const); ok && k.Value != nil {
-						if n, isK := intConst(k); isK && n == -1 {
-							return leafNone
-						}
-					}
-				}
-			}
-		case *ssa.BinOp:
-			// the range index as incremented by the loop: i = phi(-1|i+1)+1
-			if x.Op == token.ADD && isK(x.Y, 1) {
-				if ph, ok := x.X.(*ssa.Phi); ok && ph.Parent() == ctor {
-					for _, e := range ph.Edges {
-						if n, isK := intConst(e); isK && n == -1 {
-							return leafN
-						}
-					}
-				}
+			if x == ind {
+				return leafN
 			}
 		case *ssa.Call:
 			if arg, isLen := builtinCall(x, "len"); isLen && strings.HasPrefix(arg.Type().String(), "[]error") {
@@ -220,6 +241,7 @@ func (c *Ctx) mck7() {
 	vecs := []vec{{0, 1}, {0, 2}, {1, 2}, {2, 5}, {4, 5}, {3, 5}}
 	nDecided := 0
 	for _, kind := range []string{"ErrClosed", "indefinite-block", "nil-entry"} {
+		decidedKind := 0
 		for _, vc := range vecs {
 			followup := vc.i+1 < vc.n
 			sawPanic, sawPass := false, false
@@ -256,7 +278,7 @@ func (c *Ctx) mck7() {
 				if !match {
 					continue
 				}
-				sat, _ := adjDecide(p, ctor, classifyIdx, vc.i, vc.n, 0, len(p.Events))
+				sat, _ := adjDecide(p, ctor, classifyIdx, vc.i+uint64(indInit), vc.n, 0, len(p.Events))
 				if !sat {
 					continue
 				}
@@ -275,8 +297,12 @@ func (c *Ctx) mck7() {
 				v.failAt(c.P.Pos(ctor.Pos()), "a script with %s at position %d of %d is %s, want %s: the producer stops (or blocks for good) at that entry, so whatever follows it would never be delivered — and a last entry of that kind is legal", kind, vc.i, vc.n, map[bool]string{true: "refused", false: "accepted"}[sawPanic && !sawPass], map[bool]string{true: "refused", false: "accepted"}[want])
 			default:
 				nDecided++
+				decidedKind++
 				v.pass()
 			}
+		}
+		if decidedKind == 0 && !v.failed {
+			v.failAt(c.P.Pos(ctor.Pos()), "the constructor does not decide scripts with %s at all: such an entry followed by more is accepted although the producer never gets past it", kind)
 		}
 	}
 	v.done(12, "nil entries are refused; ErrClosed and an indefinite block are accepted exactly as the last entry")
